@@ -24,7 +24,7 @@ const (
 // MinterCfg is the abstract (JSON-able) description of a generated minter configuration.
 type MinterCfg struct {
 	BaseNs     int64       `json:"base_ns,omitempty"` // absolute unix ns the start offset refers to (0 = T0)
-	StartOffNs int64       `json:"start_off_ns"` // relative to BaseNs / T0
+	StartOffNs int64       `json:"start_off_ns"`      // relative to BaseNs / T0
 	FirstID    uint32      `json:"first_id"`
 	Denom      string      `json:"denom"`
 	Periods    []MinterPer `json:"periods"`
